@@ -77,6 +77,11 @@ CHECKS = {
         text="TLA+ model of the safekeeper's validate-then-read reader (per-block verdict cache, comparison of the signed block size, end-of-file handling) with its two consumers (copy until EOF, block-range copy through a limit reader), model-checked for every (signed, actual) of one old file: result = error or output = expected, undamaged => accepted. The same cases at unit scale go through the real safekeeper along the real consumers' code paths (TLC decides on the real outcome and compares it with the model's); (patch, damage) pairs - plain and optimized patches of generated build pairs, old build flipped / truncated (also at block boundaries, to nothing) / extended (inside the last block, past it) / files deleted / empty files filled / weak-hash twins - are applied with the fresh bowl through the safekeeper: either an error or exactly the new build, and an undamaged old build is accepted.",
         note="scope: fresh bowl; SHA-256 digests stand for byte equality; hash collisions other than crafted weak-hash twins not modelled.",
         technique="TLA+ model checking (TLC) + trace validation of real safekeeper reads and applications against the TLA+ reader model and property"),
+    "C16": dict(
+        level="model_checking", ref="DESIGN.md §4 C16",
+        text="TLA+ model of the goroutine protocol of Validate (main, worker, consumer goroutine, the five channels, environment cancel; one action per channel operation) swept in one TLC run over the product of its parameters (0..3 files x every damage pattern, dir wounds, channel capacity 1..2 with more wounds than capacity, consumers guardian/printer/failing-after-n, cancellation): no deadlock, <>returned and <>[]all goroutines done under weak fairness, nil from fail-fast validation => nothing damaged. The real Validate runs with hooks (-tags verif) under damage patterns (incl. > 1024 wounds with a consumer slower than the worker, damage only in the last file), four consumers, cancellation instants chosen through the hooks (before start, when main is about to dispatch file i, when the worker finished file i, after the last dispatch, asynchronous), seeded jitter and GOMAXPROCS 1..16: TLC checks that it returns, leaves no goroutine, and returns nil only for a matching directory; per-goroutine logs of free runs are validated against the protocol model (each role's log in program order under any interleaving, silent unlogged actions).",
+        note="termination observed with a 10 s deadline per run; goroutine leaks through runtime.NumGoroutine; per-file wounds abstracted to one marker in the model.",
+        technique="TLA+ model checking incl. liveness (TLC) + trace validation of per-goroutine logs and outcomes of the real validator against the TLA+ protocol"),
 }
 
 NOT_YET = "check not built yet in this round (planned: DESIGN.md §4); not a claim that the technique cannot apply"
